@@ -423,6 +423,16 @@ class Unit:
         return quantity, unit
 
     @staticmethod
+    def stating_unit(substance: Substance) -> str:
+        """
+        The base unit instructions state an added amount of `substance` in: litres, or - for a substance without volume
+        (the zero-volume density options), of which every amount is 0 L - grams / activity units.
+        """
+        if substance.density != float('inf'):
+            return 'L'
+        return 'U' if substance.is_enzyme() else 'g'
+
+    @staticmethod
     def get_human_readable_unit(value: float, unit: str) -> Tuple[float, str]:
         """
         Returns a more human-readable value and unit.
@@ -1616,7 +1626,8 @@ class Container:
             destination = self
         needed_umoles = f"{required_umoles} umol"
         result = destination._add(solvent, needed_umoles)
-        needed_volume, unit = Unit.get_human_readable_unit(Unit.convert(solvent, needed_umoles, 'L'), 'L')
+        stated_in = Unit.stating_unit(solvent)
+        needed_volume, unit = Unit.get_human_readable_unit(Unit.convert(solvent, needed_umoles, stated_in), stated_in)
         precision = config.precisions[unit] if unit in config.precisions else config.precisions['default']
         result.instructions += f"\nDilute with {round(needed_volume, precision)} {unit} of {solvent.name}."
         return result
@@ -1665,8 +1676,9 @@ class Container:
             raise ValueError("Container already holds more than the desired quantity.")
         required_quantity = max(required_quantity, 0.)
         result = self._add(solvent, f"{required_quantity} {quantity_unit}")
-        required_volume = Unit.convert(solvent, f"{required_quantity} {quantity_unit}", 'L')
-        required_volume, unit = Unit.get_human_readable_unit(required_volume, 'L')
+        stated_in = Unit.stating_unit(solvent)
+        required_volume = Unit.convert(solvent, f"{required_quantity} {quantity_unit}", stated_in)
+        required_volume, unit = Unit.get_human_readable_unit(required_volume, stated_in)
         precision = config.precisions[unit] if unit in config.precisions else config.precisions['default']
         result.instructions += f"\nFill with {round(required_volume, precision)} {unit} of {solvent.name}."
         return result
@@ -2653,8 +2665,9 @@ class Recipe:
                     renamed[dest_name] = new_name
                 amount_added = (self.results[dest_name].contents.get(solvent, 0) -
                                 step.to[0].contents.get(solvent, 0))
-                amount_added = Unit.convert_from(solvent, amount_added, config.moles_storage_unit, 'L')
-                amount_added, unit = Unit.get_human_readable_unit(amount_added, 'L')
+                stated_in = Unit.stating_unit(solvent)
+                amount_added = Unit.convert_from(solvent, amount_added, config.moles_storage_unit, stated_in)
+                amount_added, unit = Unit.get_human_readable_unit(amount_added, stated_in)
                 precision = config.precisions[unit] if unit in config.precisions else config.precisions['default']
                 step.instructions = (f"Dilute '{solute.name}' in '{dest_name}' to {concentration}" +
                                      f" by adding {round(amount_added, precision)} {unit} of '{solvent.name}'.")
@@ -2670,11 +2683,12 @@ class Recipe:
                 self.results[dest_name] = step.to[0].fill_to(solvent, quantity)
                 step.to.append(self.results[dest_name])
                 solvent_unit = 'U' if solvent.is_enzyme() else config.moles_storage_unit
+                stated_in = Unit.stating_unit(solvent)
                 if isinstance(dest, Container):
                     amount_added = (self.results[dest_name].contents.get(solvent, 0) -
                                     step.to[0].contents.get(solvent, 0))
-                    amount_added = Unit.convert_from(solvent, amount_added, solvent_unit, 'L')
-                    amount_added, unit = Unit.get_human_readable_unit(amount_added, 'L')
+                    amount_added = Unit.convert_from(solvent, amount_added, solvent_unit, stated_in)
+                    amount_added, unit = Unit.get_human_readable_unit(amount_added, stated_in)
                     precision = config.precisions[unit] if unit in config.precisions else config.precisions['default']
                     step.instructions = (f"Fill '{dest.name}' with '{solvent.name}' up to {quantity}"
                                          f" by adding {round(amount_added, precision)} {unit}.")
@@ -2724,10 +2738,10 @@ class Recipe:
                         for col in range(plate.n_columns):
                             amount_added = self.results[dest_name].wells[row, col].contents.get(solvent, 0) - \
                                            plate.wells[row, col].contents.get(solvent, 0)
-                            amount_added = Unit.convert_from(solvent, amount_added, solvent_unit, 'uL')
+                            amount_added = Unit.convert_from(solvent, amount_added, solvent_unit, 'u' + stated_in)
                             amounts[(row, col)] = round(amount_added, config.internal_precision)
                     max_amount = max(amounts.values())
-                    _, unit = Unit.get_human_readable_unit(max_amount / 1e6, 'L')
+                    _, unit = Unit.get_human_readable_unit(max_amount / 1e6, stated_in)
                     multiplier = 1e-6 / Unit.convert_prefix_to_multiplier(unit[:-1])
                     precision = config.precisions[unit] if unit in config.precisions else config.precisions['default']
                     amounts_transpose = dict()
